@@ -1412,3 +1412,30 @@ def minimize_slice(ctx, pid, n, salt=41):
         if i < 2:
             sl.sample({"bounds": bounds, "seed": seed, "maxfun": [n1, n2], "nfev": [res[0][1].nfev, res[1][1].nfev]})
     return sl
+
+
+class PlainCapped:
+    """the composite stop condition every traced run uses (configured condition OR metaepoch cap), without any tracer"""
+
+    def __init__(self, inner, cap):
+        self.inner = inner
+        self.cap = cap
+
+    def __call__(self, tree):
+        return bool(self.inner(tree)) or tree.metaepoch_count >= self.cap
+
+    def __str__(self):
+        return f"Capped({self.inner},{self.cap})"
+
+
+def untraced_twin(spec):
+    """the run a traced run stands for, without the tracer: same objects, same composite stop condition, driven by
+    the real run(); returns the final snapshot"""
+    import pyhms.tree as T
+    from pyhms.config import TreeConfig
+
+    o = build(spec, None, plain="callable")
+    opts = {"random_seed": spec["seed"], "hibernation": spec["hibernation"]}
+    tree = T.DemeTree(TreeConfig(o["levels"], PlainCapped(o["gsc"], spec["max_steps"]), o["sm"], options=opts, config_class_to_deme_class=o["custom"]))
+    tree.run()
+    return snap_tree(tree, [])
